@@ -99,20 +99,40 @@ def case_line(case):
         ' ; '.join(' '.join(q(v) for v in p) for p in case['laminaprops']), cs)
 
 
+HISTORY = []      # valid cases already run in this process (read_stack must not depend on them)
+
+
 def run_impl(case):
-    """the real code; returns ('ok', lam) or ('err', kind)"""
-    from compmech.composite.laminate import read_stack
+    """the real code; returns ('ok', lam) or ('err', kind).  Arguments the case does not give are OMITTED, so that the
+    function's own defaults are exercised; the caller's lists and the defaults must come back unchanged."""
+    from compmech.composite import laminate as _lm
+    read_stack = _lm.read_stack
+    kw = dict(offset=case['offset'])
+    if case['plyt'] is not None:
+        kw['plyt'] = case['plyt']
+    if case['laminaprop'] is not None:
+        kw['laminaprop'] = case['laminaprop']
+    if case['plyts']:
+        kw['plyts'] = list(case['plyts'])
+    if case['laminaprops']:
+        kw['laminaprops'] = list(case['laminaprops'])
+    stack = list(case['stack'])
+    before = (list(stack), list(kw.get('plyts', [])), list(kw.get('laminaprops', [])))
     try:
         with contextlib.redirect_stdout(io.StringIO()):
-            lam = read_stack(list(case['stack']), plyt=case['plyt'], laminaprop=case['laminaprop'],
-                             plyts=list(case['plyts']), laminaprops=list(case['laminaprops']),
-                             offset=case['offset'])
+            lam = read_stack(stack, **kw)
     except ValueError:
         return 'err', 'ValueError'
     except IndexError:
         return 'err', 'IndexError'
     except ZeroDivisionError:
         return 'err', 'ZeroDivisionError'
+    finally:
+        dfl = read_stack.__defaults__ or ()
+        if any(isinstance(d, (list, dict)) and len(d) for d in dfl):
+            case['_leak'] = 'read_stack changed its own default arguments to %r: later calls depend on earlier ones' % (dfl,)
+        if (stack, list(kw.get('plyts', [])), list(kw.get('laminaprops', []))) != before:
+            case['_leak'] = 'read_stack modified the lists supplied by the caller'
     return 'ok', lam
 
 
@@ -200,6 +220,8 @@ def compare(case, reply):
 def oracle_check(case):
     """property predicate evaluated on the implementation, independent of the model"""
     kind, lam = run_impl(case)
+    if case.get('_leak'):
+        return case['_leak']
     if kind != 'ok':
         return None
     A, B, D, E = oracle(case)
@@ -220,8 +242,15 @@ def derived_checks(rng, case):
     kind, lam = run_impl(case)
     if kind != 'ok' or 'malformed' in case:
         return None
-    kw = dict(plyt=case['plyt'], laminaprop=case['laminaprop'], plyts=list(case['plyts']),
-              laminaprops=list(case['laminaprops']))
+    kw = {}
+    if case['plyt'] is not None:
+        kw['plyt'] = case['plyt']
+    if case['laminaprop'] is not None:
+        kw['laminaprop'] = case['laminaprop']
+    if case['plyts']:
+        kw['plyts'] = list(case['plyts'])
+    if case['laminaprops']:
+        kw['laminaprops'] = list(case['laminaprops'])
     sA = max(float(np.abs(lam.A).max()), 1e-300)
     # offset shift
     d = rng.choice([-1, 1]) * rng.uniform(0.1, 1) * lam.t
@@ -276,11 +305,13 @@ def correspondence(ctx):
             ctx.nontrivial.add(line)
         ctx.sample(dict(case=c, model_reply=rep[:200]), limit=3)
         bad = compare(c, rep)
+        hist = [h for h in HISTORY[-4:]]
+        HISTORY.append({k: v for k, v in c.items() if not k.startswith('_')})
         if bad:
             # model and implementation differ: is the property itself violated on the implementation?
             o = oracle_check(c) or derived_checks(rng, c)
             if o:
-                ctx.violation('C01 fails on the implementation: ' + o, dict(case=c, model_disagreement=bad))
+                ctx.violation('C01 fails on the implementation: ' + o, dict(case=c, model_disagreement=bad, history=hist))
             else:
                 ctx.violation('model/implementation disagreement (%s); the independent oracle found no failing '
                               'input for this case' % bad, dict(case=c, correspondence='Model/Laminate.lean vs read_stack'),
@@ -290,7 +321,7 @@ def correspondence(ctx):
         if o is None and ctx.evaluations % 5 == 0:
             o = derived_checks(rng, c)
         if o:
-            ctx.violation('C01 fails on the implementation: ' + o, dict(case=c))
+            ctx.violation('C01 fails on the implementation: ' + o, dict(case=c, history=hist))
             return
     ctx.cov['input_distribution'] = dist
     ctx.cov['traces_validated_against_impl'] = ctx.evaluations
@@ -315,6 +346,9 @@ def replay(ctx, data):
         print('replay names a broken obligation, no input:', data['what'])
         return 1
     c['laminaprop'] = tuple(c['laminaprop']) if c['laminaprop'] is not None else None
+    for h in data['replay'].get('history', []):         # calls made earlier in the same process
+        h['laminaprop'] = tuple(h['laminaprop']) if h.get('laminaprop') is not None else None
+        run_impl(h)
     o = oracle_check(c) or derived_checks(ctx.rng, c)
     rep = driver([case_line(c)])[0]
     bad = compare(c, rep)
